@@ -51,6 +51,9 @@ class AbstractDenseTimeOnlineInterpreter(AbstractOnlineInterpreter, DenseTimeInt
             setattr(out, self.ast.out_var_field, rob)
 
         self.ast.var_object_dict = self.ast.var_object_dict.fromkeys(self.ast.var_object_dict, [])  #TODO I did not understand it.
+        if self.ast.out_var_field:
+            # the object whose field receives the result is not an input: it stays what it is
+            self.ast.var_object_dict[self.ast.out_var] = out
 
         return rob
 
